@@ -40,6 +40,7 @@ TRUSTED = [
 ]
 ASSUMPTIONS = [
     'documents: nested lists/dicts with str keys, None/bool/int (incl. > 2**64)/finite float/str (arbitrary unicode without lone surrogates); special floats and non-str keys excluded (as in the statement)',
+    'proved JSON round trip (Js model): float-free documents (null/bool/int/str/list/dict with str keys), dict keys pairwise distinct at every level (always true of a Python dict; necessary for the assoc-list model), ints of at most 4300 decimal digits (CPython int/str conversion limit; necessary), strings are sequences of Unicode scalar values (no lone surrogates); nesting below the interpreter recursion limit (not modelled)',
     'form mappings: str keys/values, lists of >= 2 strings, no pair with both key and value empty (the side conditions of the to_query_str round trip, C08)',
 ]
 RULE = ('(a) caching contract: bodies (valid / truncated / wrong encoding / empty / deeply nested JSON, forms) x content types (params, +json, unknown) x call sequences of length 1-5 over '
